@@ -1,4 +1,6 @@
 import ShkModel.Model.Printer
+import ShkModel.Model.Escape
+import ShkModel.Driver.C09
 import ShkModel.Driver.Util
 /-! Driver for C10.  A configuration is a list of clause tokens (see `vlib/cfggen.py`,
 `clause_tok`): fields separated by `:`, strings hex-encoded, inner lists by `;`, `/`, `.`.
@@ -177,7 +179,23 @@ def splitBar (ts : List String) : List String × List String :=
 def parseAll (ts : List String) : Option (List Clause) :=
   if ts == ["-"] then some [] else ts.mapM parseClause
 
+/-- `C10 esc xPRE xT xREST` (`old esc…` = before 6cb11bb): what `escapeNl` makes of the text `T`, and what the
+reader's `gather` reads back from the physical lines of `PRE ++ escapeNl T`, newline, `REST`:
+answer `xESC xLINE K` (`LINE` trimmed as `readLine` does, `K` physical lines consumed) or `xESC eof` / `xESC err`. -/
+def escOp (old : Bool) (pre t rest : String) : String :=
+  match Shk.Drv.C09.unhexN pre, Shk.Drv.C09.unhexN t, Shk.Drv.C09.unhexN rest with
+  | some pre, some t, some rest =>
+    let esc := if old then Shk.Escape.escapeNlOld t else Shk.Escape.escapeNl t
+    let (ls, tl) := Shk.Drv.C09.splitLines rest
+    match Shk.Reader.gather tl false [] (Shk.Escape.splitNl [] (pre ++ esc) ++ ls) 0 with
+    | .line l _ k _ => s!"{Shk.Drv.C09.hexN esc} {Shk.Drv.C09.hexN (Shk.Reader.trimSpace l)} {k}"
+    | .eofCont _ => s!"{Shk.Drv.C09.hexN esc} eof"
+    | .readErr _ => s!"{Shk.Drv.C09.hexN esc} err"
+  | _, _, _ => "bad-op"
+
 def handle : List String → String
+  | ["esc", pre, t, rest] => escOp false pre t rest
+  | ["escold", pre, t, rest] => escOp true pre t rest
   | "print" :: ts =>
     match parseAll ts with
     | none => "bad-op"
